@@ -95,6 +95,16 @@ type c03Runner struct {
 	mem  *fastMem
 	e    *Enc
 	base z80.States
+	live *liveSlot
+	prog c03Progress
+}
+
+// c03Progress: the block of operands a runner is in, for the liveness monitor (updated without synchronisation;
+// read only when the runner has been stuck for minutes).
+type c03Progress struct {
+	Enc  string `json:"encoding"`
+	A, B uint16
+	F    uint8
 }
 
 func newC03Runner(e *Enc, k int) *c03Runner {
@@ -265,8 +275,15 @@ func checkC03(c *Ctx) {
 				cpu := &r.cpu
 				var ev, nt int64
 				defer func() { evals[wi*8] += ev; nontriv[wi*8] += nt }()
+				if r.live == nil {
+					r.live = newLiveSlot()
+				}
+				defer r.live.reset()
 				for ai := lo; ai < hi; ai++ {
 					a := uint16(ai)
+					r.live.reset()
+					r.prog.Enc, r.prog.A = e.Name, a
+					r.live.enter(&r.prog)
 					bmax := 65536
 					if doubling {
 						bmax = 1
@@ -280,6 +297,7 @@ func checkC03(c *Ctx) {
 						} else if bvals != nil {
 							b = bvals[bi]
 						}
+						r.prog.B = b
 						for _, f := range fset {
 							cpu.PC = 0x0100
 							cpu.AF.Lo = f
